@@ -49,7 +49,7 @@ def run_offers(prop, tier, seed):
     if not res["completed"]:
         detail = res["out"][res["out"].find("Error:"):][:1500]
         outcome.violation("OfferModel: " + detail.replace("\n", " ")[:700], {"property": prop, "kind": "offer-model", "tlc": detail})
-    worlds, cases = (1, 150) if tier == "quick" else (8, 600)
+    worlds, cases = (1, 150) if tier == "quick" else (6, 300)
     trace = os.path.join(WORK, "wallet-offers-%s-%d.ndjson" % (tier, seed))
     ordv(["wallet-offers", "--seed", str(seed), "--worlds", str(worlds), "--cases", str(cases), "--out", trace], timeout=14000)
     validate(prop, prop, trace, outcome, spec="OfferTrace")
@@ -126,7 +126,7 @@ def run(prop, tier, seed):
         states += res.get("states", 0)
         distinct += res.get("distinct", 0)
         runs.append({"cfg": cfg, "states": res.get("states"), "distinct": res.get("distinct"), "wall_s": round(res["wall"], 1)})
-    worlds, ops, dry = (3, 7, 40) if tier == "quick" else (30, 9, 150)
+    worlds, ops, dry = (3, 7, 40) if tier == "quick" else (16, 9, 120)
     trace = os.path.join(WORK, "wallet-runes-%s-%d.ndjson" % (tier, seed))
     if not (os.path.exists(trace) and os.environ.get("VERIF_REUSE_TRACE") == "1"):
         ordv(["wallet-runes", "--seed", str(seed), "--worlds", str(worlds), "--ops", str(ops), "--dry-splits", str(dry), "--out", trace],
